@@ -425,6 +425,13 @@ class Gen:
                 body = ''.join(out)
                 text = sig + '{ let mut __self = self;' + body[1:]
                 self.norm_counts['N8_mut_self_receiver'] = self.norm_counts.get('N8_mut_self_receiver', 0) + 1
+        # N9: `for (i, x) in E.enumerate() { B }` -> `{ let mut i: usize = 0; for x in E { B i += 1; } }`
+        # (Verus has no specification for `Iterator::enumerate`, and a provided trait method cannot be given one).
+        # Only where the directive asks for it (`enumerate=<k>`), only when B contains no `continue` (the counter
+        # would be skipped) and no nested loop labels; anything else is a lost anchor (exit 2).
+        if opts.get('enumerate') and not is_stub:
+            for kk in sorted((int(x) for x in opts['enumerate'].split(',')), reverse=True):
+                text = self.n9_enumerate(text, kk, rel, qual)
         # N6: name the ghost iterator of a `for` loop where the contract asks for it
         for sec in sections:
             if sec['sec'] == 'loop' and sec.get('opts', {}).get('iter'):
@@ -742,6 +749,32 @@ class Gen:
             raise rsx.LostAnchor('%s: cannot find `in` of loop %d of %s' % (rel, k, qual))
         self.norm_counts['N6_named_for_iter'] = self.norm_counts.get('N6_named_for_iter', 0) + 1
         return text[:pos] + ' %s:' % name + text[pos:]
+
+    def n9_enumerate(self, text, k, rel, qual):
+        loops = rsx.fn_loops(text)
+        if k < 1 or k > len(loops) or loops[k - 1]['kw'] != 'for':
+            raise rsx.LostAnchor('%s: loop %d of %s is not a `for` loop (enumerate=)' % (rel, k, qual))
+        lp = loops[k - 1]
+        masked, _ = rsx.mask(text)
+        head = masked[lp['kw_off']:lp['open']]
+        m = re.match(r'for\s*\(\s*([A-Za-z_]\w*)\s*,\s*([A-Za-z_]\w*)\s*\)\s+in\s+(.*?)\.enumerate\(\s*\)\s*$', head, re.S)
+        if not m:
+            # the loop is no longer an enumerate loop: nothing to normalise (its contract decides whether it still fits)
+            return text
+        body = masked[lp['open']:lp['close'] + 1]
+        if re.search(r'\bcontinue\b', body):
+            raise rsx.LostAnchor('%s: loop %d of %s contains `continue`: N9 does not apply' % (rel, k, qual))
+        i_name, x_name = m.group(1), m.group(2)
+        e_start = lp['kw_off'] + m.start(3)
+        e_end = lp['kw_off'] + m.end(3)
+        expr = text[e_start:e_end]
+        new_head = '{ let mut %s: usize = 0; for %s in %s ' % (i_name, x_name, expr)
+        # keep the line structure: header may span lines; pad with the same number of newlines
+        pad = text[lp['kw_off']:lp['open']].count('\n') - new_head.count('\n')
+        new_head += '\n' * max(0, pad)
+        out = text[:lp['kw_off']] + new_head + text[lp['open']:lp['close']] + ' ; %s += 1; } }' % i_name + text[lp['close'] + 1:]
+        self.norm_counts['N9_enumerate_counter'] = self.norm_counts.get('N9_enumerate_counter', 0) + 1
+        return out
 
     def n5_name_return(self, text, ret):
         masked, _ = rsx.mask(text)
